@@ -1,0 +1,36 @@
+//go:build verif
+
+// Contracts for package keyper, checked by /verif/govc (see /verif/DESIGN.md). Comments only.
+package keyper
+
+// ---- C20: every generated eon key is handed to publication ------------------------------------------
+//
+// Ghost trace "pub": one event per hand-over of an eon public key to the configured publication
+// mechanism, recording (public key bytes, activation block, keyper-config index, eon).
+//@ evdecl pub(Bytes, Int, Int, Int)
+//@
+//@ // broadcast mode: the call is the hand-over (its own body - signing and SendMessage - is checked for
+//@ // panic freedom only)
+//@ func (*eonPubKeyHandler).broadcastEonPublicKey
+//@   requires pkh != nil && pkh.config != nil && pkh.config.Ethereum != nil && pkh.config.Ethereum.PrivateKey != nil && pkh.messaging != nil
+//@   event pub(content(eonPubKey.PublicKey), eonPubKey.ActivationBlock, eonPubKey.KeyperConfigIndex, eonPubKey.Eon)
+//@   opt frame = off
+//@
+//@ // callback mode: a call of the configured EonPublicKeyHandlerFunc is the hand-over
+//@ func dyn:github.com/shutter-network/rolling-shutter/rolling-shutter/keyper.EonPublicKeyHandlerFunc(ctx, eonPubKey) (err)
+//@   event pub(content(eonPubKey.PublicKey), eonPubKey.ActivationBlock, eonPubKey.KeyperConfigIndex, eonPubKey.Eon)
+//@
+//@ pred rowPublished(rows, i, base) := evarg("pub", 0, base + i) == content(rows[i].EonPublicKey) && evarg("pub", 1, base + i) == rows[i].ActivationBlockNumber && evarg("pub", 2, base + i) == rows[i].KeyperConfigIndex && evarg("pub", 3, base + i) == rows[i].Eon
+//@ pred modeSet(pkh) := pkh.broadcastEonPubKey || pkh.eonPubkeyHandler != nil
+//@
+//@ // Every row returned by the delete-returning query is handed over exactly once, in order, with the right
+//@ // fields; on an error the trace is a prefix of that list.
+//@ func (*eonPubKeyHandler).queryAndHandleNewEonPubKeys
+//@   requires pkh != nil && pkh.config != nil && pkh.config.Ethereum != nil && pkh.config.Ethereum.PrivateKey != nil && pkh.messaging != nil
+//@   ensures ret0 == nil && modeSet(pkh) ==> evcount("pub") == old(evcount("pub")) + len(eonPublicKeys)
+//@   ensures ret0 == nil && modeSet(pkh) ==> (forall i :: 0 <= i && i < len(eonPublicKeys) ==> rowPublished(eonPublicKeys, i, old(evcount("pub"))))
+//@   ensures evcount("pub") >= old(evcount("pub"))
+//@   invariant evcount("pub") >= old(evcount("pub"))
+//@   invariant modeSet(pkh) ==> evcount("pub") == old(evcount("pub")) + rangeindex + 1
+//@   invariant modeSet(pkh) ==> (forall j :: 0 <= j && j <= rangeindex ==> rowPublished(eonPublicKeys, j, old(evcount("pub"))))
+//@   opt frame = off
